@@ -262,6 +262,15 @@ def check(case):
                 got = nc["g_22_ylow"][sly] - (nc["Rxy_ylow"][sly] * nc["dphidy_ylow"][sly]) ** 2
                 nearx = gridcheck.near_xpoint_mask(Ryl, Zyl, xpts, 0.0)
                 b = 2.0 * numpy.abs(qa - qb) + 0.03 * qa
+                # hy is a difference of distances interpolated on the FineContour (spacing hfc): a chord
+                # of that spacing misses the arc by kappa hfc^2 / 8 (kappa from the three points; safety 4),
+                # which matters for the millimetre cells next to an X-point
+                hfc = f["hy"]["centre"].sum(axis=1, keepdims=True) * dyv / float(side["mesh_options"].get("finecontour_Nfine", 100))
+                a_ = numpy.hypot(Ryl - Rprev, Zyl - Zprev)
+                b_ = numpy.hypot(Rc - Ryl, Zc - Zyl)
+                area2 = numpy.abs((Ryl - Rprev) * (Zc - Zprev) - (Rc - Rprev) * (Zyl - Zprev))
+                kappa = 2.0 * area2 / numpy.maximum(a_ * b_ * chord, 1e-300)
+                b = b + 2.0 * poly * (4.0 * kappa * hfc**2 / 8.0) / dyv**2
                 if Rl is not None and "contour_first" in reg and "contour_last" in side["regions"][lower]:
                     # at a join the stored face is the upper region's point; hy is measured to each
                     # region's own contour end, up to a few 1e-4 m away next to an X-point (the
@@ -286,7 +295,11 @@ def check(case):
             cosang = q12_1 / numpy.sqrt(q11_1 * q22_1)
             b = band(q12_1, q12_2) + 0.02 * numpy.sqrt(q11_1 * q22_1)
             ratio = numpy.abs(g_12 - q12_1) / b
-            sel = numpy.abs(cosang) > 0.05
+            # only where the displacements resolve the geometry: both stencils give the same e_x.e_y
+            # within 50%, and the y-face chord is within 5% of the polyline through the cell centre (a
+            # closed surface gridded with 4 cells has no meaningful tangent)
+            resolved = (numpy.sign(q12_1) == numpy.sign(q12_2)) & (numpy.abs(q12_1 - q12_2) < 0.5 * numpy.abs(q12_1)) & (var22 < 0.1 * q22_1)
+            sel = (numpy.abs(cosang) > 0.05) & resolved
             if orth:
                 # on orthogonal grids g_12 = 0 is asserted exactly above; how orthogonal the
                 # displacements are is C04's subject
@@ -301,11 +314,7 @@ def check(case):
                 gy = perp(ex1) / (perp(ex1) * ey1).sum(-1, keepdims=True)
                 m12 = (gx * gy).sum(-1)
                 g12f = nc["g12"][sl]
-                # only where the displacements resolve the geometry: both stencils give the same
-                # e_x.e_y within 50%, and the y-face chord is within 5% of the polyline through the
-                # cell centre (a closed surface gridded with 4 cells has no meaningful tangent)
-                resolved = (numpy.sign(q12_1) == numpy.sign(q12_2)) & (numpy.abs(q12_1 - q12_2) < 0.5 * numpy.abs(q12_1)) & (var22 < 0.1 * q22_1)
-                bad = sel & resolved & (numpy.sign(m12) != numpy.sign(g12f)) & (numpy.abs(cosang) > 0.1)
+                bad = sel & (numpy.sign(m12) != numpy.sign(g12f)) & (numpy.abs(cosang) > 0.1)
                 if bad.any():
                     i, j = numpy.unravel_index(int(numpy.argmax(bad)), bad.shape)
                     fail(
